@@ -13,7 +13,7 @@ RULE = ("(a) generated F2003 programs (incl. references to names of F2008-only i
         "class facts == the live Base.subclasses, create histories depend only on the last create. non-trivial = >= 10 statements")
 ASSUMPTIONS = ["ordered choice is not monotone in its alternative lists: the theorems rule out dropped alternatives, the "
                "differential run covers the rest"]
-TIE_MODULES = ["FparserModel.Registry", "FparserModel.Generated.Classes2003", "FparserModel.Generated.Classes2008", "FparserModel.Generated.Intrinsics"]
+TIE_MODULES = ["FparserModel.Registry", "FparserModel.Generated.Classes2003", "FparserModel.Generated.Classes2008", "FparserModel.Generated.Intrinsics", "FparserModel.Incl08", "FparserModel.Incl08Pins", "FparserModel.Generated.Incl08Tables", "FparserModel.Props.Incl08"]
 
 # genuine references (correct argument counts) to intrinsics that exist only in F2008
 F08_INTRINSICS = {"erf": ["x"], "gamma": ["x"], "hypot": ["x", ",", "y"], "norm2": ["arr"], "bessel_j0": ["x"],
@@ -62,6 +62,12 @@ F08_ACCEPTED_BY_F03 = {
     "module-subroutine-prefix": "module m\n  interface\n    module subroutine s(a)\n      real :: a\n    end subroutine s\n  end interface\nend module m\n",
 }
 F08_PROBES.update(F08_ACCEPTED_BY_F03)
+
+
+TEXT_PROBES = [
+    ("procedure-in-interface", "module m\n  interface g\n    procedure a\n  end interface g\nend module m\n", "pred:f2003_procedure_stmt_invents_module"),
+    ("module-procedure-in-interface", "module m\n  interface g\n    module procedure a, b\n  end interface g\nend module m\n", None),
+]
 
 
 def fold(text):
@@ -127,6 +133,26 @@ def run_case(case):
                 elif fold(str(o3.tree)) != fold(str(o8.tree)):
                     res["findings"].append({"signature": "f2008-text-differs:intrinsic-args", "what": "%s/%d printed %r by f2003 and %r by f2008" % (nm, n_, str(o3.tree).split("\n")[1], str(o8.tree).split("\n")[1]), "replay": rp})
         res["evals"] = len(res["keys"])
+        return res
+    if kind == "textprobe":
+        # valid F2003 programs whose regenerated text must be the same under both standards;
+        # (name, source, known-finding key or None)
+        for name, src, key in TEXT_PROBES:
+            o3 = real.try_parse(src, std="f2003", free=True)
+            o8 = real.try_parse(src, std="f2008", free=True)
+            res.setdefault("keys", []).append(name)
+            rp = {"case": case, "source": src}
+            same = o3.kind == "tree" and o8.kind == "tree" and fold(str(o3.tree)) == fold(str(o8.tree))
+            if key is None:
+                if not same:
+                    res["findings"].append({"signature": "f2008-text-differs:probe:" + name, "what": "%s: f2003 %r, f2008 %r" % (
+                        name, str(o3.tree) if o3.tree is not None else o3.kind, str(o8.tree) if o8.tree is not None else o8.kind), "replay": rp})
+            else:
+                res["findings"].append({"signature": key if not same else "probe-now-same:" + name,
+                                        "what": ("%s: f2003 prints %r, f2008 prints %r" % (name, [l.strip() for l in str(o3.tree).split("\n") if "PROCEDURE" in l.upper()],
+                                                                                           [l.strip() for l in str(o8.tree).split("\n") if "PROCEDURE" in l.upper()]))
+                                        if not same else ("%s, listed as known finding F-C17-2, now prints the same under both standards: remove the finding" % name),
+                                        "replay": rp})
         return res
     if kind == "probe":
         name = case["probe"]
@@ -194,7 +220,7 @@ def run_case(case):
 
 def cases(tier, seed):
     n = util.tier_n(tier, 200, 2000)
-    out = [{"kind": "probe", "probe": k} for k in F08_PROBES]
+    out = [{"kind": "probe", "probe": k} for k in F08_PROBES] + [{"kind": "textprobe"}]
     out.append({"kind": "registry", "seed": seed, "n": util.tier_n(tier, 10, 60), "_timeout": 900})
     out += [{"kind": "intrargs", "lo": lo, "hi": lo + 30, "_timeout": 600} for lo in range(0, 180, 30)]
     for i, s in enumerate(util.seeds(seed, n, 17)):
@@ -205,4 +231,5 @@ def cases(tier, seed):
 
 
 def run(tier, rep, st):
+    util.sub_cosim(rep, tier, "cosim_incl08", "Fp.Incl08", 100, 1000)
     results = engine.run_cases(__name__, cases(tier, rep.seed), rep)
